@@ -235,7 +235,9 @@ type Ext struct {
 }
 
 // ParseExtensionList parses one header line as
-//   1#( token *( OWS ";" OWS token [ "=" ( token / quoted-string ) ] ) )
+//
+//	1#( token *( OWS ";" OWS token [ "=" ( token / quoted-string ) ] ) )
+//
 // per RFC 6455 9.1 / RFC 9110 5.6 (quoted-string with backslash escapes). ok is
 // false when the line does not match the grammar.
 func ParseExtensionList(v string) (exts []Ext, ok bool) {
